@@ -78,3 +78,78 @@ def replay(ctx, name, frames_path, dot, min_edges=100):
     with open(progs) as f:
         first = json.loads(f.readline())
     return st, rj, first
+
+
+SCRIPTS_Q = [[], [0], [1], [-1], [1, -1], [-2, 0], [-2, 1, 0], [-2, -1]]
+SCRIPTS_T = SCRIPTS_Q + [[1023, 1, 0], [-2, -2, -1], [0, 0], [2000, -1, -2]]
+
+
+def make_frames(ctx, setname):
+    fp = ctx.path("frames_%s.json" % setname)
+    vh(ctx, ["fdframes", setname, fp])
+    fj = json.load(open(fp))
+    if fj["tool_errors"]:
+        raise ToolError("frame serializer disagrees with libzstd: %s" % fj["tool_errors"][:3])
+    return fp, fj["frames"]
+
+
+def run_config(ctx, name, setname, params, cuts="full", invariants=None, what="", min_edges=100, select=None, dense=False):
+    """TLC on the FrameDecoder model for one frame set / parameter menu, then replay of every transition."""
+    fp, frames = make_frames(ctx, setname)
+    if select:
+        keep = [i for i, f in enumerate(frames) if select(f)]
+        # the executor indexes frames by position: write a filtered frame file
+        frames = [frames[i] for i in keep]
+        fp2 = ctx.path("frames_%s_%s.json" % (setname, name))
+        json.dump({"frames": frames, "tool_errors": []}, open(fp2, "w"))
+        fp = fp2
+    if cuts == "full":
+        cutsets = [[f["len"]] for f in frames]
+    else:
+        cutsets = [boundaries(f, dense) for f in frames]
+    res, dot = run_fd_model(ctx, name, frames, cutsets, params, invariants or FD_INVS)
+    ctx.states += res.distinct
+    ctx.transitions += res.generated
+    st, rj, first = replay(ctx, name, fp, dot, min_edges)
+    ctx.evaluations += rj["steps"]
+    ctx.distinct += st["edges"]
+    ctx.traces += rj["runs"]
+    ctx.cov[name] = {"what": what, "frames": [f["name"] for f in frames], "params": {k: v for k, v in params.items()},
+                     "cut_points": sum(len(c) for c in cutsets),
+                     "distinct_states": res.distinct, "transitions": res.generated, "graph_edges": st["edges"],
+                     "programs": rj["programs"], "calls_replayed": rj["steps"], "program_runs": rj["runs"],
+                     "mismatches": rj["mismatches"], "ops": rj["ops"], "tlc_wall_s": round(res.wall, 1),
+                     "drifted_runs": rj["drifted_runs"], "drift_signatures": rj["drift_signatures"]}
+    if rj["drifted_runs"]:
+        ctx.notes.append("%s: %d of %d program runs left the as-built model in an intermediate value (counters, amount handed out by one "
+                         "call) without any property-level observable being wrong; they were continued without predictions and completed "
+                         "with the property-level checks only. Examples: %s" % (name, rj["drifted_runs"], rj["runs"], json.dumps(rj["drift_examples"][:2])))
+        log("[drift] %s: %d runs, signatures %s" % (name, rj["drifted_runs"], rj["drift_signatures"]))
+    missing = [op for op in params.get("_expect_ops", []) if op not in rj["ops"]]
+    if missing:
+        raise ToolError("vacuous %s: operations never taken: %s" % (name, missing))
+    for m in rj["first"]:
+        ctx.violation("%s: %s%s in state %s -> %s" % (name, m["op"], m["args"], json.dumps(m["state_before"]), "; ".join(m["errors"])),
+                      {"frames": fp, "frame_set": setname, "mode": m["mode"], "chunk": m["chunk"], "program": m["prefix"]}, tag=name)
+    ctx.add_samples([first[:5]], 1)
+    return rj
+
+
+def corpus(ctx):
+    idx = ctx.path("corpus.json")
+    vh(ctx, ["mkcorpus", ctx.seed, ctx.tier, ctx.path("corpus"), idx])
+    return idx
+
+
+def random_schedules(ctx, per, idx=None):
+    idx = idx or corpus(ctx)
+    rep = ctx.path("fdrand.json")
+    vh(ctx, ["fdrand", ctx.seed, per, idx, rep], timeout=7200)
+    rj = json.load(open(rep))
+    ctx.evaluations += rj["calls"]
+    ctx.traces += rj["runs"]
+    ctx.cov["random_schedules_real_frames"] = {k: rj[k] for k in ("frames", "runs", "calls", "mismatches", "modes")}
+    for m in rj["first"]:
+        ctx.violation("random schedule on %s (%s): %s" % (m["frame"], m["mode"], "; ".join(m["errors"])), m, tag="rand")
+    ctx.add_samples(rj["samples"][:1], 1)
+    return rj
